@@ -23,6 +23,7 @@ pub struct Outcome {
 }
 
 pub fn run_world(cfg: &WorldCfg, ops: &[Op], check_cursor: bool) -> Outcome {
+    crate::vscreen::reset_straddle();
     let mut w = World::new(cfg.clone());
     w.check_cursor = check_cursor;
     w.run(ops);
@@ -49,6 +50,8 @@ pub fn run_world(cfg: &WorldCfg, ops: &[Op], check_cursor: bool) -> Outcome {
             }
         }
     }
+    // (the spy's own screen emulator lays out what was really written: its straddles count as well)
+    w.stats.wide_char_at_margin = crate::vscreen::straddle_seen() || w.spy.state().screen.straddles > 0;
     let st = w.spy.state();
     let out = Outcome {
         fail: w.fail.clone(),
@@ -258,6 +261,9 @@ pub fn features(cfg: &WorldCfg, ops: &[Op], out: &Outcome) -> Vec<String> {
     let w = cfg.width as usize;
     if texts.iter().any(|t| t.chars().any(|c| c.width().unwrap_or(0) == 2)) {
         f.push("wide-char");
+    }
+    if out.stats.wide_char_at_margin {
+        f.push("wide-char-at-margin");
     }
     if texts.iter().any(|t| t.contains('\x1b')) {
         f.push("ansi");
